@@ -7,4 +7,4 @@ Extraction Language OCaml.
 Extraction "model_val.ml" run_ms_case run_tr_case find_diff find_sigless lift_c lift_ms tr_policy equivb
   script_len ms_tl ms_height kk_of_list evals evalc world_of
   type_of subterms sem_signedb worlds_of equiv_dec small_enough exec_ops wit_count ssig_bytes stack_count
-  pk_cost_of lib_script_size.
+  pk_cost_of lib_script_size native_leaf has_if_frag.
